@@ -104,6 +104,15 @@ def main() -> int:
         if a.replay:
             mod.replay(out, json.loads(Path(a.replay).read_text()))
         else:
+            # corpus first: minimised inputs that distinguished a past breaking change from the unchanged tree
+            cdir = common.VERIF / "corpus" / prop
+            if cdir.is_dir() and hasattr(mod, "SHRINK_KEYS"):
+                for f in sorted(cdir.glob("*.json")):
+                    try:
+                        mod.replay(out, json.loads(f.read_text()))
+                        out.count("corpus_entries_replayed")
+                    except Exception:  # noqa: BLE001
+                        out.count("corpus_entries_unreadable")
             mod.run(out)
         # The tie between model and code is broken but the property's own oracle found nothing: search harder for a failing input on the
         # implementation (thorough budget, other seeds) before reporting `no-failing-input-found` (DESIGN §4 step 3).
